@@ -134,7 +134,7 @@ class G:
         if x < 0.62:
             return {"k": "cmp", "o": r.choice(["=", "<>", "<", "<=", ">", ">="]), "l": self.expr(scope, depth - 1, agg), "r": self.expr(scope, depth - 1, agg)}
         if x < 0.72:
-            return {"k": "in", "l": self.expr(scope, depth - 1, agg), "vs": [self.const() for _ in range(r.randint(1, 3))], "neg": r.random() < 0.3}
+            return {"k": "in", "l": self.expr(scope, depth - 1, agg), "vs": [self.const() for _ in range(r.choice([0, 1, 1, 2, 3]))], "neg": r.random() < 0.4}
         if x < 0.79:
             return {"k": "between", "l": self.expr(scope, depth - 1, agg), "lo": self.const(), "hi": self.const()}
         if x < 0.87:
@@ -287,7 +287,7 @@ class G:
             n = min(len(a["select"]), len(b["select"]))
             a["select"], b["select"] = a["select"][:n], b["select"][:n]
             return {"k": "setop", "op": r.choice(["UNION", "UNION ALL", "INTERSECT", "EXCEPT"]), "a": a, "b": b,
-                    "order": r.random() < 0.5, "limit": r.choice([None, None, 3])}
+                    "order": r.random() < 0.5, "limit": r.choice([None, None, 3]), "offset": r.choice([None, None, 1])}
         t = r.choice(TABLES)
         tsrc = {"k": "table", "t": t, "alias": None, "cols": COLS}
         if x < 0.78:
@@ -444,8 +444,10 @@ def ref_stmt(p):
         s = ref_select(p["a"]) + " " + p["op"] + " " + ref_select(p["b"])
         if p["order"]:
             s += " ORDER BY 1"
-        if p["limit"] is not None:
-            s += " LIMIT %d" % p["limit"]
+        if p["limit"] is not None or p.get("offset") is not None:
+            s += " LIMIT %d" % (p["limit"] if p["limit"] is not None else -1)
+        if p.get("offset") is not None:
+            s += " OFFSET %d" % p["offset"]
         return s
     if k == "insert":
         verb = "REPLACE" if p["mode"] == "replace" else "INSERT"
@@ -633,6 +635,8 @@ class PB:
                 so = so.orderby(a._selects[0])
             if p["limit"] is not None:
                 so = so.limit(p["limit"])
+            if p.get("offset") is not None:
+                so = so.offset(p["offset"])
             return so
         t = self.Q.Table(p["t"]) if self.entry == "shortcut" else r["Table"](p["t"])
         self.tables[p["t"]] = t
@@ -780,7 +784,7 @@ def run_case(case, mon):
         # different plans: compare on data
         ndb = case.get("ndb", 6)
         ordered = p["k"] == "select" and bool(p.get("total"))
-        limited = not ordered and (p["k"] == "select" and (p["limit"] is not None or p["offset"] is not None)) or (p["k"] == "setop" and p["limit"] is not None)
+        limited = not ordered and (p["k"] == "select" and (p["limit"] is not None or p["offset"] is not None)) or (p["k"] == "setop" and (p["limit"] is not None or p.get("offset") is not None))
         for i in range(ndb):
             c = new_db("db%d:%s" % (i, case["s"])) if i else con
             try:
